@@ -251,7 +251,7 @@ def main(pid, tier, vseed):
                 if p.returncode != 0:
                     violations.append((os.path.join(rdir, fn), "fuzz/regression", p.stdout[-600:]))
         stats, artifacts = run_fuzz(exe, tier, vseed, work)
-        os.makedirs(os.path.join(VERIF, "replays"), exist_ok=True)
+        os.makedirs(os.environ.get("VERIF_REPLAY_DIR") or os.path.join(VERIF, "replays"), exist_ok=True)
         seen = set()
         for path, summary, i in artifacts:
             key = re.sub(r"0x[0-9a-f]+", "", summary)[:120]
@@ -261,7 +261,7 @@ def main(pid, tier, vseed):
             # confirm outside the campaign, three times
             fails = sum(1 for _ in range(3) if subprocess.run([exe, path], stdout=subprocess.DEVNULL, stderr=subprocess.DEVNULL).returncode != 0)
             if fails == 3:
-                dst = os.path.join(VERIF, "replays", "C17-fuzz-" + os.path.basename(path))
+                dst = os.path.join(os.environ.get("VERIF_REPLAY_DIR") or os.path.join(VERIF, "replays"), "C17-fuzz-" + os.path.basename(path))
                 shutil.copy(path, dst)
                 violations.append((dst, "fuzz/" + key.split(" ")[0], summary))
         samples = []
